@@ -24,7 +24,8 @@ from lib import common as C
 ID = "C03"
 PROP_MODULES = ["GPVerif.Props.C03"]
 BUILD_TARGETS = ["GPVerif.Props.C03", "GPVerif.Gen.CacheTable"]
-RULE = ("operation histories over {predict x 6 exact-path settings cells, prior-mode call, train(), eval(), optimiser step "
+RULE = ("operation histories over {predict x 6 exact-path settings cells, predict x 2 accuracy-degrading cells (truncated Lanczos root / "
+        "2-iteration CG; own output not compared, every later exact-path call that does not legitimately read the degraded entry is), prior-mode call, train(), eval(), optimiser step "
         "(training mode only), set_train_data, load_state_dict, get_fantasy_model, backward through a non-detached prediction} "
         "on 5 model kinds; quick: windows of a de Bruijn sequence (every ordered triple of op kinds occurs, per kind) + all "
         "histories to length 5 on the Lean model; thorough: all histories of length <= 4 over the 9 op kinds + sampled long ones; "
@@ -44,9 +45,10 @@ ASSUMPTIONS = ["nn.Module.train(mode) / load_state_dict visit every submodule an
 
 GEN = os.path.join(C.LEAN_DIR, "GPVerif", "Gen", "CacheTable.lean")
 KINDS = ["exact", "kiss", "sgpr", "svgp", "usvgp"]
-CELLS = ["default", "fast_pred_var", "eager_kernels", "cg", "no_detach", "skip_var"]
+CELLS = ["default", "fast_pred_var", "eager_kernels", "cg", "no_detach", "skip_var", "degraded_root", "degraded_cg"]
+TAINT = {"Q1": 6, "Q2": 7}   # accuracy-degrading predict ops: own output not compared
 OPKINDS = ["P", "R", "T", "E", "S", "D", "L", "F", "B"]
-OPNAMES = {"P": "predict", "R": "prior_predict", "T": "train", "E": "eval", "S": "step", "D": "set_train_data",
+OPNAMES = {"P": "predict", "Q": "predict", "R": "prior_predict", "T": "train", "E": "eval", "S": "step", "D": "set_train_data",
            "L": "load_state_dict", "F": "get_fantasy_model", "B": "backward"}
 TOL, TOL_CG, CG_ONLY_MAX = 1e-8, 2e-4, 1e-2
 _state = {}
@@ -89,6 +91,18 @@ def cell_ctx(c):
         st.enter_context(S.detach_test_caches(False))
     elif c == 5:
         st.enter_context(S.skip_posterior_variances())
+    elif c == 6:    # Q1: truncated Lanczos root (rank 2, one probe vector) behind fast_pred_var; the solves stay tight
+        st.enter_context(S.fast_pred_var(True, num_probe_vectors=1))
+        st.enter_context(S.max_cholesky_size(0))
+        st.enter_context(S.max_root_decomposition_size(2))
+        st.enter_context(S.cg_tolerance(1e-10))
+        st.enter_context(S.eval_cg_tolerance(1e-10))
+        st.enter_context(S.max_cg_iterations(30))
+    elif c == 7:    # Q2: CG stopped after two iterations at tolerance 1
+        st.enter_context(S.max_cholesky_size(0))
+        st.enter_context(S.cg_tolerance(1.0))
+        st.enter_context(S.eval_cg_tolerance(1.0))
+        st.enter_context(S.max_cg_iterations(2))
     return st
 
 
@@ -167,12 +181,12 @@ def parse_ops(tokens):
     """'P3' -> ('P', 3); other tokens -> (tok,)"""
     out = []
     for t in tokens:
-        out.append(("P", int(t[1])) if t[0] == "P" else (t[0],))
+        out.append((t[0], int(t[1])) if t[0] in "PQ" else (t[0],))
     return out
 
 
 def tok(op):
-    return f"P{op[1]}" if op[0] == "P" else op[0]
+    return f"{op[0]}{op[1]}" if op[0] in "PQ" else op[0]
 
 
 class World:
@@ -252,6 +266,10 @@ class World:
                 r["prior"] = k == "R"
                 with cell_ctx(r["cell"]):
                     r["pred"] = self._call(m, r["prior"], m.training)
+            elif k == "Q":
+                r["cell"] = TAINT[tok(op)]
+                with cell_ctx(r["cell"]):
+                    self._call(m, False, m.training)     # the answer itself is not part of the property
             elif k == "T":
                 m.train()
             elif k == "E":
@@ -326,33 +344,72 @@ def reldiff(a, b):
     return float(d.max() / max(1.0, float(b.abs().max())))
 
 
+def memo_names(keys):
+    f = dict(x.split("=", 1) for x in keys.split(";"))
+    return f["ps"], set(n for n in f["memo"].split(",") if n)
+
+
+def reads_of(ps, cell, prior):
+    """memo names an exact-path call reads (mirror of CacheSM.memoReads / varReads; variational memos are never degraded)"""
+    if prior or ps in ("None", "-"):
+        return set()
+    if ps == "SGPRPredictionStrategy":
+        return {"mean_cache", "covar_cache"}
+    return {"mean_cache", "covar_cache"} if cell == 1 else {"mean_cache"}
+
+
 def run_history(kind, tokens, seed, compare_all=False):
     """Run one history on a real model.  -> list of per-op records (JSON-able).
 
-    A call is compared with a freshly constructed model unless the history model is itself in the freshly
-    constructed state (no live cache entry anywhere and no operation so far was rejected / raised)."""
+    A call is compared with a freshly constructed model unless (i) the history model is itself in the freshly
+    constructed state (no live cache entry anywhere, nothing rejected / raised so far), (ii) it is an
+    accuracy-degrading call (Q1 / Q2), or (iii) it is an exact-path call that by the model's read set reads a cache
+    entry which an accuracy-degrading call legitimately created (`covar_cache` holding a truncated root is read only
+    under fast_pred_var; a `mean_cache` from a two-iteration CG is read by every posterior call)."""
     w = World(kind, seed)
     recs, tainted, abnormal = [], False, False
+    degraded, root_degraded = set(), False      # memo names of the live strategy object filled by a degrading call
     for op in parse_ops(tokens):
         was_training = w.m.training
         before_empty = w.cache_empty()
+        ps_before, names_before = memo_names(w.keys())
         r = w.apply(op)
-        rec = {"token": r["token"], "status": r["status"], "keys": w.keys(), "diff": None, "tol": None,
+        keys = w.keys()
+        ps_after, names_after = memo_names(keys)
+        rec = {"token": r["token"], "status": r["status"], "keys": keys, "diff": None, "tol": None,
                "training": was_training, "reused": not before_empty}
-        is_cg = r["cell"] == 3 and not r["prior"]
-        if r["pred"] is not None and (compare_all or abnormal or not before_empty):
-            try:
-                fm, fc = w.fresh(r["cell"], r["prior"], was_training)
-                rec["diff"] = max(reldiff(r["pred"][0], fm), reldiff(r["pred"][1], fc))
-            except Exception as e:   # the model can no longer even be rebuilt from its own state
-                rec["diff"] = float("inf")
-                rec["status"] = "fresh-failed:" + type(e).__name__ + ":" + str(e)[:120]
-            rec["tol"] = TOL_CG if (tainted or is_cg) else TOL
-        elif r["pred"] is not None:
-            rec["skipped_fresh_state"] = True
+        is_taint = op[0] == "Q"
+        uses_cg = r["cell"] in (3, 6, 7) and not r["prior"]
+        if r["pred"] is not None and not is_taint:
+            reads = reads_of(ps_after, r["cell"], r["prior"]) if not was_training else set()
+            if reads & degraded:
+                rec["skipped_reads_degraded"] = sorted(reads & degraded)
+            elif compare_all or abnormal or not before_empty:
+                try:
+                    fm, fc = w.fresh(r["cell"], r["prior"], was_training)
+                    rec["diff"] = max(reldiff(r["pred"][0], fm), reldiff(r["pred"][1], fc))
+                except Exception as e:   # the model can no longer even be rebuilt from its own state
+                    rec["diff"] = float("inf")
+                    rec["status"] = "fresh-failed:" + type(e).__name__ + ":" + str(e)[:120]
+                rec["tol"] = TOL_CG if (tainted or uses_cg) else TOL
+            else:
+                rec["skipped_fresh_state"] = True
+        # ---- bookkeeping of degraded entries (exact GPs with the default / interpolated strategy only: the SGPR
+        #      strategy and the variational strategies compute their memo entries in closed form / by direct Cholesky)
+        if ps_after in ("None", "-") or ps_after != ps_before:
+            degraded, root_degraded = set(), False
+        degraded &= names_after
+        created = names_after - names_before if ps_after == ps_before else names_after
+        if ps_after in ("DefaultPredictionStrategy", "InterpolatedPredictionStrategy") and not was_training:
+            if "covar_cache" in created and (r["cell"] == 6 or root_degraded):
+                degraded.add("covar_cache")
+                # the default strategy memoises the root on the train-train operator: it outlives a cleared memo table
+                root_degraded = root_degraded or ps_after == "DefaultPredictionStrategy"
+            if "mean_cache" in created and r["cell"] == 7 and is_taint:
+                degraded.add("mean_cache")
         if r["status"] not in ("ok", "excluded", "na"):
             abnormal = True
-        if is_cg and r["status"] == "ok" and not was_training:
+        if uses_cg and r["status"] == "ok" and not was_training:
             tainted = True
         if w.cache_empty():
             tainted = False
@@ -438,10 +495,26 @@ def with_cells(kinds_seq, rng, counter):
     out = []
     for k in kinds_seq:
         if k == "P":
-            out.append(f"P{counter[0] % 6}")
+            out.append(ALL_PREDICTS[counter[0] % len(ALL_PREDICTS)])
             counter[0] += 1 + (rng.random() < 0.3)
         else:
             out.append(k)
+    return out
+
+
+ALL_PREDICTS = ["P0", "P1", "Q1", "P2", "P3", "Q2", "P4", "P5"]
+
+
+def taint_variant(body, rng):
+    """the same window with every predict replaced by an accuracy-degrading predict"""
+    k = rng.randrange(2)
+    out = []
+    for t in body:
+        if t[0] in "PQ":
+            out.append(("Q1", "Q2")[k % 2])
+            k += 1
+        else:
+            out.append(t)
     return out
 
 
@@ -468,10 +541,17 @@ def covering_histories(rng, window=9):
     stride = window - 2
     counter = [rng.randrange(6)]
     out = []
+    bodies = []
     for s in range(0, len(db), stride):
         body = with_cells(ext[s:s + window], rng, counter)
+        bodies.append(body)
         toks = ["E"] + body
         out.append(toks + probes(toks))
+    # … and once more with a degrading predict in every predict position of the window
+    for body in bodies:
+        if any(t[0] in "PQ" for t in body):
+            toks = ["E"] + taint_variant(body, rng)
+            out.append(toks + probes(toks))
     return out
 
 
@@ -509,6 +589,8 @@ def pattern(tokens):
         name = OPNAMES[t[0]]
         if t[0] == "P" and t[1] != "0":
             name += f"[{CELLS[int(t[1])]}]"
+        if t[0] == "Q":
+            name += f"[{CELLS[TAINT[t]]}]"
         out.append(name)
     return ">".join(out)
 
@@ -543,7 +625,7 @@ def shrink(kind, tokens, seed, idx, training_div, budget=60):
     # canonical form: every call (predict under a settings cell / prior-mode call / backward) that can be replaced
     # by a plain predict while the divergence persists, is
     for i, t in enumerate(cur):
-        if (t[0] in "PRB") and t != "P0" and tries < budget + 30:
+        if (t[0] in "PQRB") and t != "P0" and tries < budget + 30:
             cand = cur[:i] + ["P0"] + cur[i + 1:]
             tries += 1
             if diverges(cand):
@@ -595,6 +677,10 @@ def check_results(ctx, jobs, results, label):
                           f"{kind} `{' '.join(tokens)}` seed {seed}: {r['status']}")
             if r.get("skipped_fresh_state"):
                 ctx.count("calls_in_fresh_state_not_compared")
+            if r.get("skipped_reads_degraded"):
+                ctx.count("calls_reading_a_degraded_cache_not_compared")
+            if r["token"][0] == "Q":
+                ctx.count("degrading_calls")
             if r["diff"] is not None:
                 ctx.count("calls_compared_with_fresh_model")
                 ctx.count("calls_compared_training_mode" if r["training"] else "calls_compared_eval_mode")
@@ -729,6 +815,13 @@ def search(ctx, broken):
             for i, k in enumerate(ks):
                 toks.append(focus["P"][i % 4] if k == "P" else k)
             jobs.append((kind, toks + probes(toks), rng.getrandbits(20)))
+    # caches filled under accuracy-degrading settings must stay invisible to exact-path calls
+    for kind in KINDS:
+        for q in ("Q1", "Q2"):
+            for mid in ([], ["B"], ["R"], ["F"], ["P4"], ["P5"], ["P2"], ["P3"]):
+                for pre in ([], ["P0"], ["P5"]):
+                    toks = ["E"] + pre + [q] + mid
+                    jobs.append((kind, toks + ["P0", "P1", "P0"], rng.getrandbits(20)))
     # training-mode staleness: train; call; step; call
     for kind in KINDS:
         for mid in (["S"], ["S", "S"], ["P0", "S"], ["S", "P0", "S"]):
